@@ -775,7 +775,8 @@ Proof.
   - exists [], s, None, room. split; [reflexivity|]. split; [lia|]. apply continues_refl.
   - cbn [fast_loop]. cbv zeta.
     destruct (Consts.UNCHECKED_NUM_THRESHOLD <=? safe_blocks mb mo room (Nlen s)) eqn:E.
-    + apply N.leb_le in E. change Consts.UNCHECKED_NUM_THRESHOLD with 30 in E.
+    + apply N.leb_le in E.
+      assert (Hthr : 1 <= Consts.UNCHECKED_NUM_THRESHOLD) by (apply N.leb_le; vm_compute; reflexivity).
       destruct (safe_blocks_budget mb mo room (Nlen s) _ Hpos eq_refl) as [Hb Hsr]; [lia|].
       set (safe := safe_blocks mb mo room (Nlen s)) in *. clearbody safe.
       destruct (u_blocks_within w phys tb ps mb mo (repeat false (N.to_nat (pad_of tb)))
